@@ -361,6 +361,8 @@ def hitmiss(input, Bc, out=None, output=None):
     '''
     _verify_is_integer_type(input, 'hitmiss')
     _verify_is_integer_type(Bc, 'hitmiss')
+    if input.ndim != Bc.ndim or input.ndim == 0:
+        raise ValueError('mahotas.hitmiss: input and Bc must have the same (non-zero) number of dimensions')
     if input.dtype != Bc.dtype:
         if input.dtype == np.bool_:
             input = input.view(np.uint8)
@@ -524,6 +526,8 @@ def majority_filter(img, N=3, out=None, output=None):
         boolean image of same size as img.
     '''
     img = np.asanyarray(img, dtype=np.bool_)
+    if img.ndim != 2:
+        raise ValueError('mahotas.majority_filter: only 2-dimensional images are supported')
     output = _get_output(img, out, 'majority_filter', np.bool_, output=output)
     if N <= 1:
         raise ValueError('mahotas.majority_filter: filter size must be positive')
